@@ -2,6 +2,7 @@ import Iec.Lemmas.Srv104
 import Iec.Model.Cli104
 import Iec.Gen.Consts104
 import Iec.Lemmas.Srv104Vr
+import Iec.Lemmas.Cli104Vr
 /-
 C03 — CS104 wire format and send/receive sequence numbering are exact.
 
@@ -19,7 +20,8 @@ I-frame of a connection carries (s0 + n - 1) mod 32768 from any start s0, the wr
 the `% 32768`; stated over histories as `nth_iframe_ns`), `sendS_spec`, `u_frames`.  V(R) advances exactly when both sequence checks
 pass: C05 `delivery` (same code path); over histories: `nr_is_accepted_count` / `vr_is_start_plus_accepted`
 (`Lemmas/Srv104Vr.lean`: V(R) changes only when an I-format APDU passes both sequence checks).  Client role (`Iec.Cli104`, tied by its own differential):
-`client_sendI_spec`, `client_sendS_spec`, `client_u_frames` - the same laws for cs104_connection.c.
+`client_sendI_spec`, `client_sendS_spec`, `client_u_frames` - the same laws for cs104_connection.c; over histories
+`client_nr_is_accepted_count` (`Lemmas/Cli104Vr.lean`).
 -/
 namespace Iec.Props.C03
 open Iec.Srv104 Iec.KWindow
@@ -199,6 +201,21 @@ theorem client_sendS_spec (c : Cli) (hw : CliWritable c) :
 theorem client_u_frames : WellFormed Iec.Cli104.STARTDT_ACT ∧ WellFormed Iec.Cli104.STOPDT_ACT ∧
     Iec.Cli104.STARTDT_ACT.getD 2 0 = 0x07 ∧ Iec.Cli104.STOPDT_ACT.getD 2 0 = 0x13 := by
   unfold WellFormed; decide
+
+/-- **client, N(R) over every message history.** Whatever sequence of messages the client has received since V(R) was
+0 (connection opened), the acknowledgement it then writes carries N(R) = number of I-format APDUs that passed both
+sequence checks, modulo 32768 (`Lemmas/Cli104Vr.lean`: V(R) changes only then). -/
+theorem client_nr_is_accepted_count (c : Cli) (ms : List (List Nat)) (h0 : c.vr = 0) (hw : CliWritable (recvAllC c ms)) :
+    (confirmOutstanding (recvAllC c ms)).log = (recvAllC c ms).log ++
+      [.tx [0x68, 4, 1, 0, seqLo (acceptedCountC c ms % 32768), seqHi (acceptedCountC c ms % 32768)]] := by
+  have hv := vr_counts_acceptedC ms c (by rw [h0]; decide)
+  rw [h0, Nat.zero_add] at hv
+  rw [(client_sendS_spec _ hw).1, hv]
+
+/-- non-vacuity: two in-sequence I-format APDUs, one with a wrong N(S) in between (which changes nothing) -/
+example : acceptedCountC ({ p := { k := 12, w := 8, t0 := 10, t1 := 15, t2 := 10, t3 := 20, asduHdr := 6 } } : Cli)
+    [[0x68, 14, 0, 0, 0, 0, 1, 1, 3, 0, 1, 0, 1, 0, 0, 1], [0x68, 14, 8, 0, 0, 0, 1, 1, 3, 0, 1, 0, 1, 0, 0, 1],
+     [0x68, 14, 2, 0, 0, 0, 1, 1, 3, 0, 1, 0, 1, 0, 0, 1]] = 2 := by decide
 
 end Client
 
